@@ -266,10 +266,14 @@ def do_probe(ctx, kind, trigger, form):
     boom = None
     ret = None
     import biom.err as _err
-    saved_stdout = _err.stdout
+    # (if the module keeps no such attribute and looks sys.stdout up when it
+    # prints, redirect_stdout below is the seam)
+    has_attr = hasattr(_err, 'stdout')
+    saved_stdout = getattr(_err, 'stdout', None)
     # biom.err binds sys.stdout at import time ('from sys import stdout'); the
     # module attribute is the seam for the 'print' reaction
-    _err.stdout = out
+    if has_attr:
+        _err.stdout = out
     try:
         with warnings.catch_warnings(record=True) as caught:
             warnings.simplefilter('always')
@@ -281,7 +285,8 @@ def do_probe(ctx, kind, trigger, form):
                 except CallbackBoom as e:
                     boom = e
     finally:
-        _err.stdout = saved_stdout
+        if has_attr:
+            _err.stdout = saved_stdout
     where = 'probe(%s, trigger=%s, form=%d) under %r' % (kind, trigger, form,
                                                         want)
     warned = [str(c.message) for c in caught]
